@@ -263,6 +263,9 @@ func (p *Parser) genericSVCBResource(svcbType Type) (SVCBResource, error) {
 	if !p.resHeaderValid || p.resHeaderType != svcbType {
 		return SVCBResource{}, ErrNotStarted
 	}
+	if err := p.checkBodyLen(); err != nil {
+		return SVCBResource{}, err
+	}
 	r, err := unpackSVCBResource(p.msg, p.off, p.resHeaderLength)
 	if err != nil {
 		return SVCBResource{}, err
